@@ -500,6 +500,33 @@ def run(db: DB, rep: Report) -> None:
                                             if (nms | paths.load_names(v)) & lvars:
                                                 per_level = True
                                     dep = dep and per_level
+            # a value looked up in a table that this loop itself fills: the key must be the level
+            # (the loop's element), not something derived from it through a call
+            memo_bad = []
+            for t, pol in paths.guards(e, stop=lp):
+                for nm in paths.load_names(t):
+                    for st, v in paths.defs_of(bd.node, nm):
+                        if not (isinstance(v, ast.Subscript) and any(q_ is lp for q_ in _parents_of(st, bd.node))):
+                            continue
+                        table = norm(v.value)
+                        written = [x for x in ast.walk(lp) if isinstance(x, ast.Assign) and
+                                   any(isinstance(tg, ast.Subscript) and norm(tg.value) == table
+                                       for tg in x.targets)]
+                        if not written:
+                            continue
+                        key = paths.resolve_flow(v.slice, st, bd.node, depth=3)
+                        comps = key.elts if isinstance(key, ast.Tuple) else [key]
+                        plain = {c.id for c in comps if isinstance(c, ast.Name)}
+                        level_vars = set(lvars) | {y.id for x in ast.walk(lp) if isinstance(x, ast.For)
+                                                   for y in ast.walk(x.target) if isinstance(y, ast.Name)}
+                        if not (plain & level_vars):
+                            memo_bad.append((table, norm(key)))
+            rep.check("K7", not memo_bad, db.loc(e), "FlowGraph." + bd.name, "leader-edge-memo",
+                      "the leader used for %s is not read from a table keyed coarser than the level" % norm(e)[:40],
+                      "the leader that decides about %s is read from %s[%s], a table this loop fills while it "
+                      "walks the levels; its key is not the level itself, so a later level re-uses the leader "
+                      "looked up for an earlier one and its split loses the dependence on the fiber it follows" %
+                      (norm(e)[:50], memo_bad[0][0] if memo_bad else "", memo_bad[0][1][:40] if memo_bad else ""))
             rep.check("K7", dep, db.loc(e), "FlowGraph." + bd.name, "leader-edge-depends-on-level",
                       "the decision about %s depends on the level being connected" % norm(e)[:40],
                       "whether the partitioning of a level waits for a leader's fiber does not depend on that "
@@ -1041,6 +1068,10 @@ def mutants(db: DB):
     fnodes = "teaal/ir/flow_nodes.py"
     hf = "teaal/trans/hifiber.py"
     return [
+        M("leader memoised per root rank", fg,
+          "                leader = part.get_leader(src, dsts[-1])\n",
+          "                part_root = part.get_root_name(src)\n                if part_root not in self.iter_map:\n                    self.iter_map[part_root] = part.get_leader(src, dsts[-1])\n                leader = self.iter_map[part_root]\n",
+          "K7"),
         M("metrics headers chained in reverse", fg,
           "            for rank in loop_order:\n                metrics_chain.append(MetricsHeaderNode(rank))",
           "            for rank in reversed(loop_order):\n                metrics_chain.append(MetricsHeaderNode(rank))",
